@@ -29,7 +29,7 @@ theorem fs_blank_of_all_blank (l : List Event) (h : ∀ e ∈ l, e.blank = true)
   fsFrom_blank (l.take n) FS.empty FS.blank_empty
     (fun e he => h e (List.mem_of_mem_take he)) p c hc
 
-example : ∀ e ∈ trace ⟨.bottomup, .npChunks, true, true, true, true⟩, e.blank = true := by decide
+example : ∀ e ∈ trace ⟨.bottomup, .npChunks, true, true, true, true, true⟩, e.blank = true := by decide
 
 /-- **The key is never persisted** — repaired code, every configuration, every number of epochs,
 every crash point, every file. -/
@@ -43,7 +43,7 @@ theorem no_key_at_any_crash_point (f : Flags) (n : Nat) (p : Path) (c : Content)
     (hc : fsAt (trace f) n p = some c) : c.keyBlank = true :=
   no_key_at_any_crash_point_any_epochs f [true] n p c hc
 
-example : fsAt (trace ⟨.centroid, .npChunks, false, true, false, true⟩) 7 .bestCkpt
+example : fsAt (trace ⟨.centroid, .npChunks, false, true, false, true, true⟩) 7 .bestCkpt
     = some (cfg .used true false) := by decide
 
 /-- **Full artefacts** after a completed run (repaired code): the initial file holds the supplied
@@ -56,7 +56,7 @@ theorem artefacts_complete (f : Flags) :
     fs .initialCfg = some (cfg .supplied true false) ∧
     fs .trainingCfg = some (cfg .used true f.wandb) ∧
     fs .bestCkpt = (if f.ckpt then some (cfg .used true false) else none) ∧
-    fs .lastCkpt = (if f.ckpt then some (cfg .used true false) else none) ∧
+    fs .lastCkpt = (if f.ckpt ∧ f.saveLast then some (cfg .used true false) else none) ∧
     fs .chunksCfg = (if f.fw = .npChunks then some (cfg .prepared true false) else none) ∧
     fs .trainChunks = (if f.fw = .npChunks ∧ ¬ f.deleteChunks then some .data else none) ∧
     fs .valChunks = (if f.fw = .npChunks ∧ ¬ f.deleteChunks then some .data else none) := by
@@ -69,7 +69,7 @@ theorem artefacts_complete_any_epochs (f : Flags) (rs : List Bool) :
     fs .initialCfg = some (cfg .supplied true false) ∧
     fs .trainingCfg = some (cfg .used true f.wandb) ∧
     fs .bestCkpt = (if f.ckpt then some (cfg .used true false) else none) ∧
-    fs .lastCkpt = (if f.ckpt then some (cfg .used true false) else none) ∧
+    fs .lastCkpt = (if f.ckpt ∧ f.saveLast then some (cfg .used true false) else none) ∧
     fs .chunksCfg = (if f.fw = .npChunks then some (cfg .prepared true false) else none) ∧
     fs .trainChunks = (if f.fw = .npChunks ∧ ¬ f.deleteChunks then some .data else none) ∧
     fs .valChunks = (if f.fw = .npChunks ∧ ¬ f.deleteChunks then some .data else none) := by
@@ -93,7 +93,7 @@ theorem repair_changes_only_key_bits (f : Flags) (rounds : List Bool)
     (h : runIdRaises .asIs f = false) :
     traceG .repaired f rounds = (traceG .asIs f rounds).map Event.shape := by
   have hround : ∀ b, ckptRound .repaired f b = (ckptRound .asIs f b).map Event.shape := by
-    intro b; cases b <;> simp [ckptRound, Event.shape, cfg, blankTrain]
+    intro b; cases b <;> cases hsl : f.saveLast <;> simp [ckptRound, Event.shape, cfg, blankTrain, hsl]
   have hfm : ∀ rs : List Bool, (rs.flatMap (ckptRound .repaired f))
       = (rs.flatMap (ckptRound .asIs f)).map Event.shape := by
     intro rs
@@ -117,7 +117,7 @@ theorem repair_changes_only_key_bits (f : Flags) (rounds : List Bool)
     split <;> simp [Event.shape, cfg, blankTrain]
   simp only [traceG, List.map_append, ← h1, ← h2, ← h3, ← h4, ← h5]
 
-example : runIdRaises .asIs ⟨.centroid, .npChunks, true, true, false, true⟩ = false := by decide
+example : runIdRaises .asIs ⟨.centroid, .npChunks, true, true, false, true, true⟩ = false := by decide
 
 /-! ## Two-run history: run 2 re-uses the chunks run 1 left (`use_existing_chunks = True`)
 
@@ -136,8 +136,8 @@ theorem no_key_at_any_crash_point_reuse (f1 : Flags) (r1 : List Bool) (f2 : Flag
   exact fsFrom_blank ((traceR .repaired f2 r2).take n) _ h0
     (fun e he => all_blank_traceR f2 r2 e (List.mem_of_mem_take he)) p c hc
 
-example : fsReuseAt .repaired ⟨.centroid, .torchDataset, true, false, true, true⟩ [true]
-    ⟨.centroid, .npChunks, false, true, false, true⟩ [true] 4 .trainChunks = some .data := by decide
+example : fsReuseAt .repaired ⟨.centroid, .torchDataset, true, false, true, true, true⟩ [true]
+    ⟨.centroid, .npChunks, false, true, false, true, true⟩ [true] 4 .trainChunks = some .data := by decide
 
 /-- **Full artefacts** after run 2: as for a fresh run, and the chunk files run 1 left are gone
 iff run 2 requested their deletion (kept otherwise); run 1's chunks `config.yaml` stays. -/
@@ -147,17 +147,17 @@ theorem artefacts_complete_reuse (f1 : Flags) (rs1 : List Bool) (f2 : Flags) (rs
     fs .initialCfg = some (cfg .supplied true false) ∧
     fs .trainingCfg = some (cfg .used true f2.wandb) ∧
     fs .bestCkpt = (if f2.ckpt then some (cfg .used true false) else none) ∧
-    fs .lastCkpt = (if f2.ckpt then some (cfg .used true false) else none) ∧
+    fs .lastCkpt = (if f2.ckpt ∧ f2.saveLast then some (cfg .used true false) else none) ∧
     fs .chunksCfg = some (cfg .prepared true false) ∧
     fs .trainChunks = (if f2.deleteChunks then none else some .data) ∧
     fs .valChunks = (if f2.deleteChunks then none else some .data) := by
   simp only [fsReuseAfter]
   rw [reuseStart_repaired, fsFrom_traceR_any_epochs]
-  rcases f2 with ⟨m, fw, w, c, s, d⟩
+  rcases f2 with ⟨m, fw, w, c, s, d, l⟩
   simp only at hfw; subst hfw
-  cases m <;> cases w <;> cases c <;> cases s <;> cases d <;> decide
+  cases m <;> cases w <;> cases c <;> cases s <;> cases d <;> cases l <;> decide
 
-example : (⟨.bottomup, .npChunks, true, true, false, true⟩ : Flags).fw = .npChunks := rfl
+example : (⟨.bottomup, .npChunks, true, true, false, true, true⟩ : Flags).fw = .npChunks := rfl
 
 /-- **Run 2 completes** (repaired code). -/
 theorem train_total_reuse (f : Flags) (rounds : List Bool) :
@@ -184,26 +184,41 @@ theorem no_key_at_any_crash_point_same_folder (fA : Flags) (rA : List Bool) (fB 
     (hc : fsSameAt .repaired fA rA fB rB n p = some c) : c.keyBlank = true := by
   have h0 : (sameStart .repaired fA rA).Blank :=
     age_blank (fsFrom_blank _ FS.empty FS.blank_empty (all_blank_traceG fA rA))
-  exact fsFrom_blank ((traceS .repaired fA.ckpt fB rB).take n) _ h0
-    (fun e he => all_blank_traceS fA.ckpt fB rB e (List.mem_of_mem_take he)) p c hc
+  exact fsFrom_blank ((traceS .repaired (leftBest fA) (leftLast fA) fB rB).take n) _ h0
+    (fun e he => all_blank_traceS _ _ fB rB e (List.mem_of_mem_take he)) p c hc
 
-example : fsSameAt .repaired ⟨.centeredInstance, .npChunks, false, true, false, false⟩ [true]
-    ⟨.centroid, .torchDataset, true, true, true, true⟩ [true] 1 .trainingCfg
+example : fsSameAt .repaired ⟨.centeredInstance, .npChunks, false, true, false, false, true⟩ [true]
+    ⟨.centroid, .torchDataset, true, true, true, true, false⟩ [true] 1 .trainingCfg
+    = some (cfg .stale true false) := by decide
+
+/-- … and the same when run A **died** at any of its crash points `k` (any prefix of A's trace is
+key-blank) and run B is then started in what A left — whatever checkpoint names B ends up using. -/
+theorem no_key_after_interrupted_A (fA : Flags) (rA : List Bool) (k : Nat) (aBest aLast : Bool)
+    (fB : Flags) (rB : List Bool) (n : Nat) (p : Path) (c : Content)
+    (hc : fsCrashedAt .repaired fA rA k aBest aLast fB rB n p = some c) : c.keyBlank = true := by
+  have h0 : (age (fsAt (traceG .repaired fA rA) k)).Blank :=
+    age_blank (fsFrom_blank _ FS.empty FS.blank_empty
+      (fun e he => all_blank_traceG fA rA e (List.mem_of_mem_take he)))
+  exact fsFrom_blank _ _ h0 (fun e he => all_blank_traceS aBest aLast fB rB e (List.mem_of_mem_take he)) p c hc
+
+example : fsCrashedAt .repaired ⟨.bottomup, .npChunks, true, true, false, true, true⟩ [true] 2 false false
+    ⟨.centroid, .torchDataset, false, false, true, true, false⟩ [true] 1 .trainingCfg
     = some (cfg .stale true false) := by decide
 
 /-- **Full artefacts** after run B: the config files describe **B** (initial = B's supplied
-configuration, final = the one B used — not A's stale ones); B's checkpoint exists iff B
-checkpoints; A's checkpoints are still there, key-blank; the chunks `config.yaml` is B's if B uses
-the chunk framework (else A's stale one, if any); chunk files are gone iff B (chunk framework)
-requested deletion — a B without chunks leaves A's chunk files as they were. -/
+configuration, final = the one B used — not A's stale ones); B's `best` checkpoint exists iff B
+checkpoints and its `last` one iff B also has `save_last` (under the `-v1` names where A left a
+file of that name); A's checkpoints are still there, key-blank; the chunks `config.yaml` is B's if
+B uses the chunk framework (else A's stale one, if any); chunk files are gone iff B (chunk
+framework) requested deletion — a B without chunks leaves A's chunk files as they were. -/
 theorem artefacts_complete_same_folder (fA : Flags) (rsA : List Bool) (fB : Flags) (rsB : List Bool) :
     let fs := fsSameAfter .repaired fA (true :: rsA) fB (true :: rsB)
     fs .initialCfg = some (cfg .supplied true false) ∧
     fs .trainingCfg = some (cfg .used true fB.wandb) ∧
-    fs (bestPath fA.ckpt) = (if fB.ckpt then some (cfg .used true false) else none) ∧
-    fs (lastPath fA.ckpt) = (if fB.ckpt then some (cfg .used true false) else none) ∧
-    (fA.ckpt = true → fs .bestCkpt = some (cfg .stale true false) ∧
-                      fs .lastCkpt = some (cfg .stale true false)) ∧
+    fs (bestPath (leftBest fA)) = (if fB.ckpt then some (cfg .used true false) else none) ∧
+    fs (lastPath (leftLast fA)) = (if fB.ckpt ∧ fB.saveLast then some (cfg .used true false) else none) ∧
+    (fA.ckpt = true → fs .bestCkpt = some (cfg .stale true false)) ∧
+    (fA.ckpt = true → fA.saveLast = true → fs .lastCkpt = some (cfg .stale true false)) ∧
     fs .chunksCfg = (if fB.fw = .npChunks then some (cfg .prepared true false)
                      else if fA.fw = .npChunks then some (cfg .stale true false) else none) ∧
     fs .trainChunks = (if fB.fw = .npChunks then (if fB.deleteChunks then none else some .data)
@@ -211,18 +226,63 @@ theorem artefacts_complete_same_folder (fA : Flags) (rsA : List Bool) (fB : Flag
     fs .valChunks = (if fB.fw = .npChunks then (if fB.deleteChunks then none else some .data)
                      else if fA.fw = .npChunks ∧ ¬ fA.deleteChunks then some .data else none) := by
   simp only [fsSameAfter, sameStart]
-  rw [fsAfter_repaired_eq, fsFrom_traceS_any_epochs]
-  exact same_folder_exit fA.fw fA.wandb fA.ckpt fA.deleteChunks fB
+  rw [fsAfter_repaired_eq, fsFrom_traceS_any_epochs, traceS_canon]
+  exact same_folder_exit fA.fw fA.wandb fA.ckpt fA.deleteChunks fA.saveLast
+    fB.fw fB.wandb fB.ckpt fB.deleteChunks fB.saveLast
 
 /-- **Run B completes** (repaired code). -/
-theorem train_total_same_folder (a : Bool) (f : Flags) (rounds : List Bool) :
-    ∀ e ∈ traceS .repaired a f rounds, e.isRaise = false := by
-  refine forall_mem_traceS _ a f rounds ?_ ?_ ?_ ?_ ?_
+theorem train_total_same_folder (a b : Bool) (f : Flags) (rounds : List Bool) :
+    ∀ e ∈ traceS .repaired a b f rounds, e.isRaise = false := by
+  refine forall_mem_traceS _ a b f rounds ?_ ?_ ?_ ?_ ?_
   · flag_cases f
   · flag_cases f
   · flag_cases f
-  · intro b; cases a <;> cases b <;> flag_cases f
+  · intro r; cases a <;> cases b <;> cases r <;> flag_cases f
   · flag_cases f
+
+/-! ## Aborted runs: an exception or Ctrl-C inside `trainer.fit`
+
+`traceAbort v f rounds` = everything a run writes when `fit` is left by an exception after the
+validation epochs `rounds` (any number, any improvement pattern, possibly none): the `finally`
+block of `train()` still runs, then the exception propagates (`raise` is the last event). -/
+
+/-- **The key is never persisted** by an aborted run either, at any crash point. -/
+theorem no_key_at_any_crash_point_aborted (f : Flags) (rounds : List Bool) (n : Nat) (p : Path)
+    (c : Content) (hc : fsAt (traceAbort .repaired f rounds) n p = some c) : c.keyBlank = true := by
+  refine fs_blank_of_all_blank _ ?_ n p c hc
+  intro e he
+  rcases List.mem_append.mp he with h | h
+  · exact all_blank_traceG f rounds e h
+  · rcases List.mem_singleton.mp h with rfl; rfl
+
+/-- **Config artefacts of an aborted run**: the initial file holds the supplied configuration, the
+final one the configuration used (with the run id iff tracking), both key-blank; the chunks
+`config.yaml` is there iff the chunk framework is used; chunk files are gone iff deletion was
+requested.  (Whether a checkpoint exists depends on how far training got: no claim.) -/
+theorem config_artefacts_after_abort (f : Flags) (rounds : List Bool) :
+    let fs := fsAfter (traceAbort .repaired f rounds)
+    fs .initialCfg = some (cfg .supplied true false) ∧
+    fs .trainingCfg = some (cfg .used true f.wandb) ∧
+    fs .chunksCfg = (if f.fw = .npChunks then some (cfg .prepared true false) else none) ∧
+    fs .trainChunks = (if f.fw = .npChunks ∧ ¬ f.deleteChunks then some .data else none) ∧
+    fs .valChunks = (if f.fw = .npChunks ∧ ¬ f.deleteChunks then some .data else none) := by
+  have h : let fs := fsAfter (traceG .repaired f [])
+      fs .initialCfg = some (cfg .supplied true false) ∧
+      fs .trainingCfg = some (cfg .used true f.wandb) ∧
+      fs .chunksCfg = (if f.fw = .npChunks then some (cfg .prepared true false) else none) ∧
+      fs .trainChunks = (if f.fw = .npChunks ∧ ¬ f.deleteChunks then some .data else none) ∧
+      fs .valChunks = (if f.fw = .npChunks ∧ ¬ f.deleteChunks then some .data else none) := by
+    flag_cases f
+  simp only at h ⊢
+  rw [fsAfter_abort_at _ f rounds .initialCfg (by decide) (by decide),
+    fsAfter_abort_at _ f rounds .trainingCfg (by decide) (by decide),
+    fsAfter_abort_at _ f rounds .chunksCfg (by decide) (by decide),
+    fsAfter_abort_at _ f rounds .trainChunks (by decide) (by decide),
+    fsAfter_abort_at _ f rounds .valChunks (by decide) (by decide)]
+  exact h
+
+example : (traceAbort .repaired ⟨.centroid, .npChunks, true, true, true, true, false⟩ [true, false]).length = 11 := by
+  decide
 
 /-! ### Regression record, finding F-C19c (fixed by b1bbd3c): bottom-up model + re-used chunks raised
 on the tree that had only the F-C19/F-C19b repair (`Version.keyFixed`) -/
@@ -239,20 +299,20 @@ def KeyFixedReuseTotal : Prop :=
 after three config writes, before any training; nothing is cleaned up. -/
 theorem reuse_bottomup_raises_counterexample : ¬ KeyFixedReuseTotal := by
   intro h
-  exact absurd (h ⟨.bottomup, .npChunks, false, true, false, true⟩ [true] .raise (by decide)) (by decide)
+  exact absurd (h ⟨.bottomup, .npChunks, false, true, false, true, true⟩ [true] .raise (by decide)) (by decide)
 
 /-- Every other model type: run 2 of the `keyFixed` tree is exactly the repaired run 2. -/
 theorem keyFixed_reuse_partial (f : Flags) (rounds : List Bool) (h : f.model ≠ .bottomup) :
     traceR .keyFixed f rounds = traceR .repaired f rounds := by
   have : reuseRaises .keyFixed f = false := by
-    rcases f with ⟨m, fw, w, c, s, d⟩
+    rcases f with ⟨m, fw, w, c, s, d, l⟩
     cases m <;> simp_all [reuseRaises]
   have hrep : reuseRaises .repaired f = false := rfl
   unfold traceR
   rw [this, hrep]
   rfl
 
-example : (⟨.centroid, .npChunks, true, true, false, true⟩ : Flags).model ≠ .bottomup := by decide
+example : (⟨.centroid, .npChunks, true, true, false, true, true⟩ : Flags).model ≠ .bottomup := by decide
 
 /-- Even the failing run leaks nothing: the `keyFixed` tree never persists the key in run 2 either. -/
 theorem keyFixed_reuse_no_key (f1 : Flags) (r1 : List Bool) (f2 : Flags) (r2 : List Bool)
@@ -279,7 +339,7 @@ def AsIsNoKey : Prop :=
 `best.ckpt` (and in `initial_config.yaml`, `training_config.yaml`, `last.ckpt`). -/
 theorem key_persisted_counterexample : ¬ AsIsNoKey := by
   intro h
-  have := h ⟨.centeredInstance, .torchDataset, false, true, false, true⟩ 6 .bestCkpt
+  have := h ⟨.centeredInstance, .torchDataset, false, true, false, true, true⟩ 6 .bestCkpt
     (cfg .used false false) (by decide)
   exact absurd this (by decide)
 
@@ -305,9 +365,10 @@ theorem asIs_initial_config_leaks_at_every_crash_point (f : Flags) (rounds : Lis
 theorem asIs_leaks_at_exit_iff (f : Flags) (p : Path) :
     ((fsAfter (asIs f) p).map Content.keyBlank = some false) ↔
       (p = .initialCfg ∨ (p = .chunksCfg ∧ f.fw = .npChunks) ∨
-        (f.wandb = false ∧ (p = .trainingCfg ∨ (f.ckpt = true ∧ (p = .bestCkpt ∨ p = .lastCkpt))))) := by
-  rcases f with ⟨m, fw, w, c, s, d⟩
-  cases m <;> cases fw <;> cases w <;> cases c <;> cases s <;> cases d <;> cases p <;> decide
+        (f.wandb = false ∧ (p = .trainingCfg ∨
+          (f.ckpt = true ∧ (p = .bestCkpt ∨ (p = .lastCkpt ∧ f.saveLast = true)))))) := by
+  rcases f with ⟨m, fw, w, c, s, d, l⟩
+  cases m <;> cases fw <;> cases w <;> cases c <;> cases s <;> cases d <;> cases l <;> cases p <;> decide
 
 /-- Full totality statement for the code as it is (false). -/
 def AsIsTotal : Prop := ∀ (f : Flags), ∀ e ∈ asIs f, e.isRaise = false
@@ -316,13 +377,13 @@ def AsIsTotal : Prop := ∀ (f : Flags), ∀ e ∈ asIs f, e.isRaise = false
 the `finally` block, so the final `training_config.yaml` is never written and chunks are kept. -/
 theorem run_id_raises_counterexample : ¬ AsIsTotal := by
   intro h
-  exact absurd (h ⟨.centeredInstance, .torchDataset, true, false, true, true⟩ .raise (by decide)) (by decide)
+  exact absurd (h ⟨.centeredInstance, .torchDataset, true, false, true, true, true⟩ .raise (by decide)) (by decide)
 
 /-- Outside `tracking ∧ structured` the pinned code completes. -/
 theorem asIs_total_partial (f : Flags) (rounds : List Bool) (h : ¬ (f.wandb = true ∧ f.structured = true)) :
     ∀ e ∈ traceG .asIs f rounds, e.isRaise = false := by
   have hr : runIdRaises .asIs f = false := by
-    rcases f with ⟨m, fw, w, c, s, d⟩
+    rcases f with ⟨m, fw, w, c, s, d, l⟩
     cases w <;> cases s <;> simp_all [runIdRaises]
   intro e he
   have hm : e.shape ∈ traceG .repaired f rounds := by
@@ -333,17 +394,17 @@ theorem asIs_total_partial (f : Flags) (rounds : List Bool) (h : ¬ (f.wandb = t
   | delete p => rfl
   | raise => simp [Event.shape, Event.isRaise] at this
 
-example : ¬ ((⟨.centroid, .npChunks, true, true, false, true⟩ : Flags).wandb = true ∧
-    (⟨.centroid, .npChunks, true, true, false, true⟩ : Flags).structured = true) := by decide
+example : ¬ ((⟨.centroid, .npChunks, true, true, false, true, true⟩ : Flags).wandb = true ∧
+    (⟨.centroid, .npChunks, true, true, false, true, true⟩ : Flags).structured = true) := by decide
 
 /-- What the repo's own test asserts (tracking on, plain config): the *final*
 `training_config.yaml` has a blank key and the run id. -/
 theorem asIs_final_config_blank_partial (f : Flags) (hw : f.wandb = true) (hs : f.structured = false) :
     fsAfter (asIs f) .trainingCfg = some (cfg .used true true) := by
-  rcases f with ⟨m, fw, w, c, s, d⟩
+  rcases f with ⟨m, fw, w, c, s, d, l⟩
   simp only at hw hs; subst hw; subst hs
-  cases m <;> cases fw <;> cases c <;> cases d <;> decide
+  cases m <;> cases fw <;> cases c <;> cases d <;> cases l <;> decide
 
-example : (⟨.bottomup, .torchDataset, true, false, false, false⟩ : Flags).wandb = true := rfl
+example : (⟨.bottomup, .torchDataset, true, false, false, false, true⟩ : Flags).wandb = true := rfl
 
 end SleapVerif.C19
